@@ -62,6 +62,18 @@ def names(rng, tier):
             lines.append("topic.parse.api " + hx(c))
             lines.append("sub.parse.api " + hx(c))
             lines.append("project.parse " + hx(c))
+    # map-key identity: names that differ in project or id are different keys, also when the
+    # concatenation project ++ id is the same string split elsewhere
+    parts = [b"a", b"b", b"ab", b"c", b"bc", b"abc", b"p1", b"p", b"1t", b"t", "é".encode(), b"x-y", b"x", b"-y"]
+    for kind, mid in (("t", TOP), ("s", SUB)):
+        for _ in range(120 if tier == "quick" else 1500):
+            p1, i1, p2, i2 = rng.choice(parts), rng.choice(parts), rng.choice(parts), rng.choice(parts)
+            if rng.chance(1, 2):
+                # force a concatenation collision: split one string at two places
+                w = rng.choice([b"abc", b"p1t1", b"abcd", b"xyzw", "aéb".encode("utf8")])
+                k1, k2 = rng.range(1, len(w) - 1), rng.range(1, len(w) - 1)
+                p1, i1, p2, i2 = w[:k1], w[k1:], w[:k2], w[k2:]
+            lines.append("name.eq %s %s %s" % (kind, hx(PFX + p1 + mid + i1), hx(PFX + p2 + mid + i2)))
     return lines
 
 
@@ -236,6 +248,8 @@ def flow(rng, tier):
                 m -= dm
                 ops.append("dec:%d:%d" % (db, dm))
         lines.append("flow %d %d %s" % (mb, mm, " ".join(ops)))
+    # the start of a wait racing a capacity-freeing dec on a second thread
+    lines.append("flow.race %d" % (300000 if tier == "quick" else 10000000))
     return lines
 
 
